@@ -744,3 +744,10 @@ M("C15-benign-raw-delimiter-nested-if", "C15", "src/cppparser/cppPreprocessor.cx
   "      if (str.size() >= delimiter.size() &&\n          str.compare(str.size() - delimiter.size(), delimiter.size(), delimiter) == 0) {\n        str.resize(str.size() - delimiter.size());\n        break;\n      }",
   "      if (str.size() >= delimiter.size()) {\n        if (str.compare(str.size() - delimiter.size(), delimiter.size(), delimiter) == 0) {\n          str.resize(str.size() - delimiter.size());\n          break;\n        }\n      }",
   benign=True)
+
+M("C07-colon-above-question", "C07", "src/cppparser/cppBison.yxx",
+  "%right ':'\n%right '='\n%right '?'\n", "%right '='\n%right '?'\n%right ':'\n",
+  expect="R07.2|const_expr|conditional|else-branch-extends-right")
+M("C07-benign-colon-between", "C07", "src/cppparser/cppBison.yxx",
+  "%right ':'\n%right '='\n%right '?'\n", "%right '='\n%right ':'\n%right '?'\n",
+  benign=True)
